@@ -7,7 +7,7 @@ import re
 
 from ..cfg import cfg_of
 from ..core import named_args, seq, AnalysisError, call_name, unparse, walk_no_nested
-from ..pattern import body_is, find, has, has_expr
+from ..pattern import body_is, find, find_expr, has, has_expr
 from ..report import Ctx
 
 #: functions that select rows by integer position (0..n-1): reason
@@ -137,7 +137,19 @@ if groups is None:
 else:
     ___
 """)
-    ctx.add('C13.R3', 'Database.split:rows', ok, f, 'ungrouped slices partition a permutation of all rows' if ok else 'ungrouped slicing changed', 'rows')
+    lost = None
+    if not ok:
+        # positive: blocks of len // slices rows taken by position leave the last len % slices rows in no slice
+        for pat in ('[_SH.iloc[_I * _S:(_I + 1) * _S] for _I in range(slices)]', '[_SH[_I * _S:(_I + 1) * _S] for _I in range(slices)]'):
+            for hit in find_expr(f.node, pat):
+                size = [a for a in walk_no_nested(f.node) if isinstance(a, ast.Assign) and unparse(a.targets[0]) == hit['_S']]
+                if len(size) == 1 and re.fullmatch(r'(len\((\w+)\)|(\w+)\.shape\[0\]) // slices', unparse(size[0].value)):
+                    lost = f'{unparse(hit["__node__"])[:90]} with {unparse(size[0])}'
+    if lost:
+        ctx.add('C13.R3', 'Database.split:rows', False, f, f'the slices are blocks of len // slices rows taken by position ({lost}): when the number of rows is not a multiple of `slices` the last len % slices rows '
+                'are in no validation part and in no estimation part - the folds do not contain every row once', 'rows', positive=True)
+    else:
+        ctx.add('C13.R3', 'Database.split:rows', ok, f, 'ungrouped slices partition a permutation of all rows' if ok else 'ungrouped slicing changed', 'rows')
     # panel: groups = panelColumn dominates the choice between grouped and ungrouped slicing
     setg = [n for n in walk_no_nested(f.node) if isinstance(n, ast.Assign) and unparse(n.targets[0]) == 'groups' and unparse(n.value) == 'self.panelColumn']
     choose = [n for n in walk_no_nested(f.node) if isinstance(n, ast.If) and unparse(n.test) == 'groups is None']
